@@ -78,6 +78,7 @@ type ShardResult struct {
 	Bounds      map[string]string // JSON texts
 	Counters    map[string]int64
 	Internal    []string
+	ClassCounts map[string]int64
 }
 
 // Ctx is handed to a check body.
@@ -99,11 +100,12 @@ func newCtx(prop, tier string, seed int64, shard, shards int) *Ctx {
 	return &Ctx{
 		Prop: prop, Tier: tier, Seed: seed, Shard: shard, Shards: shards,
 		res: &ShardResult{
-			States:     map[uint64]struct{}{},
-			Nontrivial: map[uint64]struct{}{},
-			Known:      map[string]*knownHit{},
-			Bounds:     map[string]string{},
-			Counters:   map[string]int64{},
+			States:      map[uint64]struct{}{},
+			Nontrivial:  map[uint64]struct{}{},
+			Known:       map[string]*knownHit{},
+			Bounds:      map[string]string{},
+			Counters:    map[string]int64{},
+			ClassCounts: map[string]int64{},
 		},
 		known: loadKnown(),
 	}
@@ -215,7 +217,8 @@ func (c *Ctx) Fail(class string, cs any, format string, a ...any) {
 		}
 	}
 	c.res.NViolations++
-	if len(c.res.Violations) < 8 {
+	c.res.ClassCounts[class]++
+	if c.res.ClassCounts[class] <= 3 && len(c.res.Violations) < 24 {
 		c.res.Violations = append(c.res.Violations, Violation{Class: class, Msg: msg, Case: raw})
 	}
 }
@@ -454,6 +457,9 @@ func parentMain(id, tier string) int {
 			fmt.Printf("VIOLATION property=%s replay=%s\n", id, path)
 			fmt.Printf("  class=%q %s\n", v.Class, oneLine(v.Msg, 600))
 		}
+		for k, v := range m.ClassCounts {
+			fmt.Printf("  violations by class: %q = %d\n", k, v)
+		}
 		if int(m.NViolations) > len(m.Violations) {
 			fmt.Printf("  (%d violating cases in total, first %d written)\n", m.NViolations, len(m.Violations))
 		}
@@ -540,11 +546,12 @@ func replayMain(path string) int {
 
 func merge(rs []*ShardResult) *ShardResult {
 	m := &ShardResult{
-		States:     map[uint64]struct{}{},
-		Nontrivial: map[uint64]struct{}{},
-		Known:      map[string]*knownHit{},
-		Bounds:     map[string]string{},
-		Counters:   map[string]int64{},
+		States:      map[uint64]struct{}{},
+		Nontrivial:  map[uint64]struct{}{},
+		Known:       map[string]*knownHit{},
+		Bounds:      map[string]string{},
+		Counters:    map[string]int64{},
+		ClassCounts: map[string]int64{},
 	}
 	capSeen := map[string]bool{}
 	for _, r := range rs {
@@ -564,7 +571,13 @@ func merge(rs []*ShardResult) *ShardResult {
 		}
 		m.NViolations += r.NViolations
 		for _, v := range r.Violations {
-			if len(m.Violations) < 8 {
+			n := 0
+			for _, o := range m.Violations {
+				if o.Class == v.Class {
+					n++
+				}
+			}
+			if n < 3 && len(m.Violations) < 24 {
 				m.Violations = append(m.Violations, v)
 			}
 		}
@@ -587,6 +600,9 @@ func merge(rs []*ShardResult) *ShardResult {
 		}
 		for k, v := range r.Counters {
 			m.Counters[k] += v
+		}
+		for k, v := range r.ClassCounts {
+			m.ClassCounts[k] += v
 		}
 		m.Internal = append(m.Internal, r.Internal...)
 	}
